@@ -165,3 +165,66 @@ Example two_late_callers :
   | None => False
   end.
 Proof. vm_compute. split; reflexivity. Qed.
+
+(** ** Clause 27 on the event log of EVERY trace of the mixed-entry-point system
+
+    As for C17's clauses 24/25, the agreement test does not read the event
+    log; Compose/EventLog.v says which harness events a step of the system
+    emits ([xlog]: a ReplicateSingle / ReplicateComposite caller whose
+    ReplicateMultiple part reached OK arrives in sink.Get / GetFromComposite;
+    the release of that read emits its return and then the caller's return
+    with [read_code]).  By induction over all traces - any decorator, any mix
+    of entry points, any schedule, faults and cancellations. *)
+From BBS Require Import Compose.EventLog Run.R17LogBase Run.R17LogEntry Run.R17LogOrder Run.R17LogMon Run.R17LogExamples.
+Local Open Scope nat_scope.
+
+Theorem clause27_silent_on_every_trace : forall kinds m x0 tr x,
+  xrun kinds m x0 tr = Some x -> clause27_ok kinds (xlog kinds m x0 tr).
+Proof. exact entry_clause27. Qed.
+Print Assumptions clause27_silent_on_every_trace.
+
+Theorem clause27_is_what_the_monitor_checks : forall kinds lg, clause27_ok kinds lg -> mon_results kinds lg = [].
+Proof. exact mon_results_silent. Qed.
+Print Assumptions clause27_is_what_the_monitor_checks.
+
+(** "Agree implies no violation", all clauses of C17L: an observation the
+    judge accepts, carrying the log of ANY trace of the model, is still
+    accepted and raises none of 21/22/23, 26, 27. *)
+Theorem monitor_silent_on_accepted_observation_with_model_log :
+  forall inp obs m kinds sets source sink evs tr x,
+  agreeL inp obs = true ->
+  cfgL inp = (m, kinds, sets, source, sink, evs) ->
+  xrun kinds m (xinit kinds sets source sink) tr = Some x ->
+  let obs' := L [sx_nth obs 0; sx_nth obs 1; sx_nth obs 2; sx_nth obs 3; L (xlog kinds m (xinit kinds sets source sink) tr)] in
+  agreeL inp obs' = true /\ mon17L inp obs' = [].
+Proof. exact mon17L_silent_on_accepted_with_model_log. Qed.
+Print Assumptions monitor_silent_on_accepted_observation_with_model_log.
+
+(** ... and carrying any rewrite of that log that keeps every caller's lines in
+    order and moves no line across a start event ([same_run], see Props/C17.v:
+    the order in which two callers woken in the same round write their lines
+    is not determined); clause 27 does not depend on the order at all. *)
+Theorem monitor_silent_on_accepted_observation_any_write_order :
+  forall inp obs m kinds sets source sink evs tr x lg',
+  agreeL inp obs = true ->
+  cfgL inp = (m, kinds, sets, source, sink, evs) ->
+  xrun kinds m (xinit kinds sets source sink) tr = Some x ->
+  same_run (xlog kinds m (xinit kinds sets source sink) tr) lg' ->
+  let obs' := L [sx_nth obs 0; sx_nth obs 1; sx_nth obs 2; sx_nth obs 3; L lg'] in
+  agreeL inp obs' = true /\ mon17L inp obs' = [].
+Proof. exact mon17L_silent_on_accepted_any_write_order. Qed.
+Print Assumptions monitor_silent_on_accepted_observation_any_write_order.
+
+(** Non-vacuity and the tie to the real code: limit 1, caller 0 uses
+    ReplicateSingle, caller 1 ReplicateComposite (its read-back fails with
+    NOT_FOUND, reported as INTERNAL); [xlog] of the trace is the log recorded
+    from the real limiter on that schedule, and clause 27 is silent on it. *)
+Example model_log_is_the_recorded_log_mixed_entry_points :
+  let kinds := [KSingle 0; KComposite 0] in
+  let tr := [EStart 0; ETau 0 false; EStart 1; ETau 1 false; ERel 0 0%Z; ERel 0 0%Z; ETau 1 false; ERel 0 0%Z;
+             ERel 1 0%Z; ERel 1 0%Z; ERel 1 5%Z] in
+  let lg := xlog kinds (MLimit 1) (xinit kinds [[0]; [0]] [0] []) tr in
+  map lg_kind lg = [0; 1; 0; 2; 1; 2; 1; 1; 2; 3; 2; 1; 2; 1; 2; 3]%Z
+  /\ existsb (fun e => Z.eqb (lg_kind e) 3%Z && Nat.eqb (lg_caller e) 0 && Z.eqb (sx_Z (sx_nth e 2)) 0%Z) lg = true
+  /\ mon_results kinds lg = [].
+Proof. vm_compute. repeat split; reflexivity. Qed.
